@@ -1,6 +1,6 @@
 (* Proofs about Model/Version.v (property C18). *)
 From Coq Require Import Lia.
-From HS Require Import Base.Prelude Gen.VersionData Model.Version.
+From HS Require Import Base.Prelude Gen.VersionData Model.Version Proofs.PreludeP.
 Open Scope N_scope.
 
 (* ------------------------------------------------------------------ *)
@@ -8,17 +8,6 @@ Open Scope N_scope.
 
 Lemma N_compare_antisym x y : N.compare y x = CompOpp (N.compare x y).
 Proof. apply N.compare_antisym. Qed.
-
-Lemma str_eqb_refl a : str_eqb a a = true.
-Proof. induction a as [|x a IH]; simpl; [reflexivity|]. now rewrite N.eqb_refl, IH. Qed.
-
-Lemma str_eqb_eq a b : str_eqb a b = true <-> a = b.
-Proof.
-  revert b; induction a as [|x a IH]; intros [|y b]; simpl; split; intro H;
-    try reflexivity; try discriminate.
-  - apply andb_true_iff in H as [H1 H2]. apply N.eqb_eq in H1. apply IH in H2. now subst.
-  - inversion H; subst. now rewrite N.eqb_refl, str_eqb_refl.
-Qed.
 
 Lemma str_compare_eq a b : str_compare a b = Eq <-> a = b.
 Proof.
